@@ -915,7 +915,9 @@ structure SolSite where
 		}
 		fmt.Fprintf(&sb, "  (%s, %s)%s\n", leanStr(h), c12LeanStrs(g), sep)
 	}
-	sb.WriteString("]\n\nend FxVerif.Gen.C12\n")
+	sb.WriteString("]\n\n")
+	sb.WriteString(c.c12PlanLean())
+	sb.WriteString("end FxVerif.Gen.C12\n")
 	c.write("C12.lean", sb.String())
 	c.facts["C12.goLayouts"] = goL
 	c.facts["C12.tronLayouts"] = tronL
